@@ -120,6 +120,7 @@ type mode int
 const (
 	modeExclude mode = iota // never put a keyword-named identifier into a leaky position
 	modeForce               // prefer keyword-named identifiers in leaky positions
+	modeAny                 // keyword-named identifiers anywhere (finding not listed: nothing is excluded)
 )
 
 type builder struct {
